@@ -14,6 +14,9 @@ CHECKS.update({
  "C16": ("exploration","runtime oracle: insertion-ordered list model vs the real CDB writer/reader over generated and hash-crafted workloads; byte comparison of dump->make",
          "Writes generated pair sequences with the real writer, reads every key back with FindStart/FindNext (and absent keys, incl. ones crafted to hash into the same wrapped probe region) and compares with an insertion-ordered list model; dump->make must reproduce the file byte for byte from a byte reader and from an *os.File.",
          "Trusts the harness model and go-spooky (used only to craft collisions, the reader/writer use their own copy). Files up to ~5e4 records.","4/C16"),
+ "C18": ("exploration","runtime oracle: independent RFC 9460 encoder/walker and miekg/dns decoder over all key orderings with seeded values; malformed-input table",
+         "Runs the real FromText/ToWire/ToText and the B/H line codec on every ordering of every subset of the seven keys (complete) with seeded value variants, compares the bytes with the harness's own RFC 9460 encoding, walks them for order/length conformance, decodes them with miekg/dns and checks the print->parse round trip; a table of malformed lists must be rejected (or, for empty elements, lose nothing).",
+         "Trusts the harness encoder/walker and miekg/dns v1.1.50 (not used for IPv4-mapped ipv6hint, which it refuses by its own policy). Value variants are sampled, key orderings are complete.","4/C18"),
 })
 BUILT = set(CHECKS)
 ALL = [json.loads(l)["id"] for l in open("properties.jsonl")]
